@@ -149,9 +149,14 @@ class _Simplifier(ast.NodeTransformer):
             return ast.Constant(value=not n.operand.value)
         return n
 
+    truth_context = False
+
     def visit_BoolOp(self, n):
-        # truth-preserving (used on tests): neutral constants are dropped, an absorbing constant ends the chain
+        # truth-preserving only: neutral constants are dropped, an absorbing constant ends the chain - applied to tests,
+        # never to value expressions (`x or 0` is 0 when x is falsy)
         self.generic_visit(n)
+        if not self.truth_context:
+            return n
         is_and = isinstance(n.op, ast.And)
         vals = []
         for v in n.values:
@@ -174,12 +179,16 @@ class _Simplifier(ast.NodeTransformer):
         return n
 
 
-def simplify(expr):
-    return _Simplifier().visit(expr) if expr is not None else None
+def simplify(expr, test=False):
+    if expr is None:
+        return None
+    sm = _Simplifier()
+    sm.truth_context = test
+    return sm.visit(expr)
 
 
-def resolve(expr, state):
-    return simplify(_Resolver(state).visit(clone(expr)))
+def resolve(expr, state, test=False):
+    return simplify(_Resolver(state).visit(clone(expr)), test)
 
 
 def _assigned_names(stmts):
@@ -322,7 +331,7 @@ class Explorer:
             st.status = "raise"
             return [st]
         if isinstance(s, ast.If):
-            t = resolve(s.test, st)        # may bind walrus targets in st.env
+            t = resolve(s.test, st, test=True)        # may bind walrus targets in st.env
             if isinstance(t, ast.Constant) and self.prune:
                 # decided by partial evaluation: only one branch is feasible
                 st.events.append(Event("test", s, t, bool(t.value)))
@@ -340,7 +349,7 @@ class Explorer:
             for n in havoc:
                 st.env[n] = ast.Name(id=n + tag, ctx=ast.Load())
             if isinstance(s, ast.While):
-                st.events.append(Event("loop", s, resolve(s.test, st), None))
+                st.events.append(Event("loop", s, resolve(s.test, st, test=True), None))
             start = len(st.events)
             inner = self.block(s.body, [st.fork()])
             self.iterations.setdefault(id(s), (s, start, inner))
